@@ -637,6 +637,24 @@ theorem ty_withCb {s : State} (ht : TyInvG wl wd s) (hwd : wd → wl) (src : Nat
           rcases mem_setL he with ⟨he', _⟩ | ⟨rfl, _⟩
           · exact Or.inl (mem_delL.1 he').1
           · exact Or.inr (Or.inl ⟨k2, hk2, hthick.toThin rfl (ho2.1.thin hth2).2 rfl rfl⟩))
+        (by
+          intro s t k h2 hp hne hlk hthin ha
+          obtain ⟨ht, htok⟩ := hp
+          obtain ⟨kb, hkb, ho, hnt, hth⟩ := htok
+          obtain ⟨h3, h4⟩ := hth ha
+          obtain ⟨k2, hk2, ho2⟩ := ht.slot hlk
+          have hth2 : h2.kind.isThin = true := by rw [hthin]; rfl
+          have hthick := thick_ok (m := s.mem) ho2 hk2 hth2
+          refine ⟨?_, ⟨k2, hk2, hthick, rfl, fun _ => ⟨rfl, (ho2.1.thin hth2).2⟩⟩⟩
+          apply ht.next (Ext.refl _)
+          intro e he
+          have he : e ∈ setL (setL s.slots k (ThinArc.of_arc t)) src
+              (ThinArc.of_arc (ThinArc.thick s.mem h2)) := he
+          rcases mem_setL he with ⟨he', _⟩ | ⟨rfl, _⟩
+          · rcases mem_setL he' with ⟨he'', _⟩ | ⟨rfl, _⟩
+            · exact Or.inl he''
+            · exact Or.inr (Or.inl ⟨kb, hkb, ho.toThin h3 h4 rfl h3⟩)
+          · exact Or.inr (Or.inl ⟨k2, hk2, hthick.toThin rfl (ho2.1.thin hth2).2 rfl rfl⟩))
         script s t "" ⟨ht, h0⟩
       exact h
     · exact ht
